@@ -1,10 +1,14 @@
 import OxiddModel.Util.Proto
-import OxiddModel.HashTbl.Model
+import OxiddModel.HashTbl.Ops
 
 /-!
 Line-protocol driver `tbl` for the hash-table model (C17).  See the header of
 `/verif/harness/src/bin/c17_tbl.rs` for the protocol; both sides print the same canonical line
 for every operation line.
+
+Every table operation is executed through `apply` (the function the history theorems are about);
+the hash given on the line is passed as the constant hash function `fun _ => h` (an operation
+uses the hash of its own key only).  `dump`, `push`, `pop` and `hashes` are harness plumbing.
 -/
 namespace OxiddModel.HashTbl
 
@@ -30,98 +34,71 @@ def errLine : Err → String
   | .panic => "PANIC"
   | .diverge => "DIVERGE"
 
-def dieWith (s : DState) (e : Err) : DState × String := ({ s with dead := true }, errLine e)
+/-- canonical output line of an observation (`tag` names the key list of the operation) -/
+def showObs (tag : String) : Obs → String
+  | .unit => "ok"
+  | .inserted s => "new " ++ toString s
+  | .present s => "found " ++ toString s
+  | .removed true => "some"
+  | .removed false => "none"
+  | .found (some i) => toString i
+  | .found none => "none"
+  | .got (some v) => toString v
+  | .got none => "none"
+  | .keys ks => showKeys tag ks
 
 /-- the predicate of the `retain m` line: keep `k` iff bit `k mod 64` of `m` is set -/
 def keepMask (m k : Nat) : Bool := m.testBit (k % 64)
 
+/-- run one table operation with the hash `h` for its key -/
+def exec (s : DState) (h : Nat) (op : Op) (tag : String := "keys") : DState × String :=
+  match apply (fun _ => h) s.t op with
+  | .ok (t, o) => ({ s with t := t }, showObs tag o)
+  | .error e => ({ s with dead := true }, errLine e)
+
 def stepWords (s : DState) : List String → DState × String
   | "hashes" :: hs =>
     if hs.all (fun x => x.toNat?.isSome) then (s, "ok " ++ toString hs.length) else (s, "bad-op")
-  | ["new"] => ({ s with t := Tbl.new }, "ok")
+  | ["new"] => exec s 0 .new
   | ["withcap", n] =>
     match n.toNat? with
-    | some n =>
-      match Tbl.withCapacity n with
-      | .ok t => ({ s with t := t }, "ok")
-      | .error e => dieWith s e
+    | some n => exec s 0 (.withCap n)
     | none => (s, "bad-op")
   | ["ins", k, h] =>
     match k.toNat?, h.toNat? with
-    | some k, some h =>
-      if k ≥ 4294967296 then (s, "bad-op") else
-      match s.t.insert k h with
-      | .ok (t, .isNew i) => ({ s with t := t }, "new " ++ toString i)
-      | .ok (t, .found i) => ({ s with t := t }, "found " ++ toString i)
-      | .error e => dieWith s e
+    | some k, some h => if k ≥ 4294967296 then (s, "bad-op") else exec s h (.ins k)
     | _, _ => (s, "bad-op")
   | ["rem", k, h] =>
     match k.toNat?, h.toNat? with
-    | some k, some h =>
-      match s.t.remove k h with
-      | .ok (t, true) => ({ s with t := t }, "some")
-      | .ok (t, false) => ({ s with t := t }, "none")
-      | .error e => dieWith s e
+    | some k, some h => exec s h (.rem k)
     | _, _ => (s, "bad-op")
   | ["find", k, h] =>
     match k.toNat?, h.toNat? with
-    | some k, some h =>
-      match s.t.find h k with
-      | .ok (some i) => (s, toString i)
-      | .ok none => (s, "none")
-      | .error e => dieWith s e
+    | some k, some h => exec s h (.find k)
     | _, _ => (s, "bad-op")
   | ["get", k, h] =>
     match k.toNat?, h.toNat? with
-    | some k, some h =>
-      match s.t.getKey h k with
-      | .ok (some v) => (s, toString v)
-      | .ok none => (s, "none")
-      | .error e => dieWith s e
+    | some k, some h => exec s h (.get k)
     | _, _ => (s, "bad-op")
   | ["retain", m] =>
     match m.toNat? with
-    | some m =>
-      match s.t.retain (keepMask m) with
-      | .ok (t, d) => ({ s with t := t }, showKeys "dropped" d)
-      | .error e => dieWith s e
+    | some m => exec s 0 (.retain (keepMask m)) "dropped"
     | none => (s, "bad-op")
-  | ["drain"] =>
-    match s.t.drain with
-    | .ok (t, ks) => ({ s with t := t }, showKeys "keys" ks)
-    | .error e => dieWith s e
+  | ["drain"] => exec s 0 .drain
   | ["drainpartial", n] =>
     match n.toNat? with
-    | some n =>
-      match s.t.drainTake n with
-      | .ok (t, ks) => ({ s with t := t }, showKeys "keys" ks)
-      | .error e => dieWith s e
+    | some n => exec s 0 (.drainTake n)
     | none => (s, "bad-op")
-  | ["clear"] =>
-    match s.t.clear with
-    | .ok t => ({ s with t := t }, "ok")
-    | .error e => dieWith s e
-  | ["clearnd"] =>
-    match s.t.clear with
-    | .ok t => ({ s with t := t }, "ok")
-    | .error e => dieWith s e
-  | ["reset"] => ({ s with t := s.t.resetNoDrop }, "ok")
+  | ["clear"] => exec s 0 .clear
+  | ["clearnd"] => exec s 0 .clearNoDrop
+  | ["reset"] => exec s 0 .reset
   | ["reserve", n] =>
     match n.toNat? with
-    | some n =>
-      match s.t.reserve n with
-      | .ok t => ({ s with t := t }, "ok")
-      | .error e => dieWith s e
+    | some n => exec s 0 (.reserve n)
     | none => (s, "bad-op")
-  | ["clone"] => ({ s with t := s.t.clone }, "ok")
-  | ["intoiter"] =>
-    match s.t.intoIter with
-    | .ok ks => ({ s with t := Tbl.new }, showKeys "keys" ks)
-    | .error e => dieWith s e
-  | ["iter"] =>
-    match s.t.iter with
-    | .ok ks => (s, showKeys "keys" ks)
-    | .error e => dieWith s e
+  | ["clone"] => exec s 0 .clone
+  | ["intoiter"] => exec s 0 .intoIter
+  | ["iter"] => exec s 0 .iter
   | ["dump"] => (s, showDump s.t)
   | ["push"] => ({ s with stack := s.t.clone :: s.stack }, "ok")
   | ["pop"] =>
